@@ -14,6 +14,9 @@ CLAIMED = {
 CLAIMED['C03'] = ('ir2c', 'bounded model checking (CBMC/SAT) of the clang IR of class half translated to C, all operand bit patterns; conversions abstracted as uninterpreted pure callees for the arithmetic obligations',
     'Solver verdicts over all 2^16 patterns (classification, limits, unary minus, round(n) for every n) and all 2^32 / 2^48 operand pairs (compound arithmetic == f2h(h2f(a) op rhs), compositional with C01). Text round trip and the halfFunction fill loop are stated as not decided.',
     'Trusted: clang-14 -O1, vf/ll2c.py (validated each run against g++ and clang++ builds of the real code), CBMC. Arithmetic obligations treat the two conversion functions (and, for * and /, the float operation) as uninterpreted functions on both sides.', '3/C03')
+CLAIMED['C02'] = ('cbmc-c+ir2c', 'bounded model checking (CBMC/SAT,SMT): miters between build configurations of half.h (C, C++14/17/20 IR, table, bit-shift, F16C-with-SDM-model) and the table generator, all 2^32 / 2^16 inputs',
+    'Each configuration pair is one solver query (or 64 slices for the 65,536-entry shipped table) over every input bit pattern: table==bit-shift (via a common reference), generator toFloat.cpp::halfToFloat == bit-shift (loop unwound with unwinding assertion), C front end vs clang IR per language standard, table builds return entry h of an arbitrary installed table, F16C wiring under an SDM model of the two instructions.',
+    'Trusted: CBMC, clang-14, vf/ll2c.py (validated each run), the SDM model of VCVTPH2PS/VCVTPS2PH in stubs/f16c. Real F16C silicon, MSVC/CUDA branches and the iostream printing of the generator (aux diff only) are outside.', '3/C02')
 NOT_YET = 'check not built yet in this working session (planned in DESIGN.md section 3); no claim is made'
 NA = {}
 
